@@ -1,0 +1,7 @@
+//go:build verif
+
+// Verification hook for property C12, second part (add-only, build tag "verif").
+package corazawaf
+
+// VerifC12LastPhase is the phase RuleGroup.Eval ran last for this transaction.
+func (tx *Transaction) VerifC12LastPhase() int { return int(tx.lastPhase) }
